@@ -1,0 +1,45 @@
+//! Verification-only forwarders to crate-private items of the algebra module.
+//! Compiled only with `--cfg oxfordcontrol_clarabel_rs_verif`.  Add-only.
+#![allow(non_snake_case, missing_docs)]
+use super::*;
+use num_traits::Num;
+
+pub fn gemv_n<T: FloatT>(A: &CscMatrix<T>, y: &mut [T], x: &[T], a: T, b: T) {
+    A.gemv(y, x, a, b)
+}
+pub fn gemv_t<T: FloatT>(A: &CscMatrix<T>, y: &mut [T], x: &[T], a: T, b: T) {
+    A.t().gemv(y, x, a, b)
+}
+pub fn symv<T: FloatT>(A: &CscMatrix<T>, y: &mut [T], x: &[T], a: T, b: T) {
+    A.sym().symv(y, x, a, b)
+}
+pub fn findnz<T: Num + Copy>(A: &CscMatrix<T>) -> (Vec<usize>, Vec<usize>, Vec<T>) {
+    A.findnz()
+}
+pub fn count_diagonal_entries<T: Num + Copy>(A: &CscMatrix<T>, triu: bool) -> usize {
+    A.count_diagonal_entries(if triu { MatrixTriangle::Triu } else { MatrixTriangle::Tril })
+}
+pub fn triangular_number(k: usize) -> usize {
+    super::triangular_number(k)
+}
+pub fn triangular_index(k: usize) -> usize {
+    super::triangular_index(k)
+}
+pub fn upper_triangular_index_to_coord(idx: usize) -> (usize, usize) {
+    super::upper_triangular_index_to_coord(idx)
+}
+pub fn coord_to_upper_triangular_index(coord: (usize, usize)) -> usize {
+    super::coord_to_upper_triangular_index(coord)
+}
+pub fn alg_permute<T: Copy>(x: &mut [T], b: &[T], p: &[usize]) {
+    super::permute(x, b, p)
+}
+pub fn alg_ipermute<T: Copy>(x: &mut [T], b: &[T], p: &[usize]) {
+    super::ipermute(x, b, p)
+}
+pub fn alg_invperm(p: &[usize]) -> Vec<usize> {
+    super::invperm(p)
+}
+pub fn sortperm<T: Ord + Copy>(p: &mut [usize], v: &[T]) {
+    super::sortperm(p, v)
+}
